@@ -174,17 +174,29 @@ func toStrMap(v any) map[string]string {
 
 // call with a deadline; returns "ok", "error:<msg>" or "timeout"
 func (s *lspSession) call(method string, params any, d time.Duration) string {
-	ctx, cancel := context.WithTimeout(context.Background(), d)
-	defer cancel()
-	var raw json.RawMessage
-	err := s.conn.Call(ctx, method, params, &raw)
-	if err == nil {
-		return "ok"
-	}
-	if ctx.Err() != nil {
+	// the request is WRITTEN to a synchronous in-memory pipe: when the server's read loop is stuck the write
+	// itself blocks and no context can interrupt it, so the call runs in its own goroutine under a hard deadline
+	done := make(chan string, 1)
+	go func() {
+		ctx, cancel := context.WithTimeout(context.Background(), d)
+		defer cancel()
+		var raw json.RawMessage
+		err := s.conn.Call(ctx, method, params, &raw)
+		switch {
+		case err == nil:
+			done <- "ok"
+		case ctx.Err() != nil:
+			done <- "timeout"
+		default:
+			done <- "error:" + err.Error()
+		}
+	}()
+	select {
+	case r := <-done:
+		return r
+	case <-time.After(d + 2*time.Second):
 		return "timeout"
 	}
-	return "error:" + err.Error()
 }
 
 func init() {
@@ -297,7 +309,13 @@ func init() {
 		}
 		defer s2.cancel()
 		time.Sleep(1200 * time.Millisecond)
-		idle2 := s2.waitIdleMin(1800*time.Millisecond, 45*time.Second, len(contents))
+		linted := 0
+		for k := range contents {
+			if strings.HasSuffix(k, ".rego") && !strings.HasPrefix(k, "ignored/") {
+				linted++
+			}
+		}
+		idle2 := s2.waitIdleMin(1800*time.Millisecond, 45*time.Second, linted)
 		want := s2.snapshot()
 		names := []string{}
 		for k := range contents {
@@ -351,14 +369,23 @@ func init() {
 			_ = json.Unmarshal([]byte(text), &params)
 			if boolv(msg, "notify") {
 				// a true notification: the client does not wait, the next message follows at once
-				nctx, ncancel := context.WithTimeout(context.Background(), 10*time.Second)
-				err := s.conn.Notify(nctx, str(msg, "method"), params)
-				ncancel()
-				if err != nil {
-					results = append(results, "timeout")
-				} else {
-					results = append(results, "ok")
+				nd := make(chan error, 1)
+				go func() {
+					nctx, ncancel := context.WithTimeout(context.Background(), 10*time.Second)
+					defer ncancel()
+					nd <- s.conn.Notify(nctx, str(msg, "method"), params)
+				}()
+				var nerr error
+				select {
+				case nerr = <-nd:
+				case <-time.After(12 * time.Second):
+					nerr = context.DeadlineExceeded
 				}
+				if nerr != nil {
+					results = append(results, "timeout")
+					break
+				}
+				results = append(results, "ok")
 				continue
 			}
 			r := s.call(str(msg, "method"), params, 10*time.Second)
@@ -366,9 +393,17 @@ func init() {
 				r = "error" // a JSON-RPC error response is a response
 			}
 			results = append(results, r)
+			if r == "timeout" {
+				// the server stopped answering: every further message would cost another full timeout
+				break
+			}
 			if d := num(msg, "pauseMs"); d > 0 {
 				time.Sleep(time.Duration(d) * time.Millisecond)
 			}
+		}
+		if len(results) > 0 && results[len(results)-1] == "timeout" {
+			alive := s.call("workspace/symbol", map[string]any{"query": ""}, 5*time.Second)
+			return map[string]any{"results": results, "idle": false, "alive": alive}, nil
 		}
 		time.Sleep(800 * time.Millisecond)
 		idle := s.waitIdle(1500*time.Millisecond, 40*time.Second)
